@@ -400,6 +400,13 @@ func (env *LEnv) load(ctx context.Context, exprs []*LVal) *LVal {
 		// registry should definitely still contain currPkg.
 		env.Runtime.Package = currPkg
 	}()
+	// A nested load (load-string, load-bytes, load-file) runs in the root
+	// environment, which may be in the middle of evaluating the form that
+	// issued the load.  That form keeps running at its own call expression:
+	// an error it raises afterwards is located there, not inside the loaded
+	// source.
+	loc := env.loc
+	defer func() { env.loc = loc }()
 
 	ret := Nil()
 	for _, expr := range exprs {
